@@ -218,6 +218,16 @@ func (*MedianAggregatorFunction).Result
   atreturn even-count-mean-of-two-middles: len(f.values) > 0 && len(f.values) % 2 == 0 ==> result == boxof((sorted[len(f.values) / 2 - 1] + sorted[len(f.values) / 2]) / 2.0, float64)
 
 // ---- percentile (rank floor(p*(n-1)) of the ordered values; rule read from the code)
+// percentile(field, p): p is the second argument, a number of [0, 1] with both ends allowed (p = 1 is the maximum);
+// anything else is refused, and a refused p is never silently replaced
+func (*PercentileAggregatorFunction).Init
+  props C03 C01 C04 C07 C09
+  modifies f.p
+  ensures a-number-within-zero-and-one-both-ends-included-becomes-the-rank: len(args) >= 2 && hasType(args[1], float64) && realval(args[1]) >= 0.0 && realval(args[1]) <= 1.0 ==> result == nil && f.p == realval(args[1])
+  ensures a-whole-number-zero-or-one-is-taken-too: len(args) >= 2 && (hasType(args[1], int) || hasType(args[1], int64)) && intval(args[1]) >= 0 && intval(args[1]) <= 1 ==> result == nil && f.p == float64(intval(args[1]))
+  ensures a-rank-outside-the-range-is-refused: len(args) >= 2 && hasType(args[1], float64) && (realval(args[1]) < 0.0 || realval(args[1]) > 1.0) ==> result != nil
+  ensures without-a-rank-or-with-a-rank-that-is-no-number-it-is-refused: len(args) < 2 || (len(args) >= 2 && !hasType(args[1], float64) && !hasType(args[1], int) && !hasType(args[1], int64)) ==> result != nil
+
 func (*PercentileAggregatorFunction).Add
   props C03
   modifies f.values
